@@ -599,4 +599,25 @@ func printFingerprints() {
 		fmt.Println("\t},")
 	}
 	fmt.Println("}")
+	fmt.Println()
+	fmt.Println("// pinnedFP2: the refined fingerprints (body + names of the in-package callees).")
+	fmt.Println("var pinnedFP2 = map[string]map[string]string{")
+	for _, cfg := range []string{"amd64", "purego", "386"} {
+		m := model.Load(model.Config{Name: cfg, RepoDir: *flagRepo})
+		fmt.Printf("\t%q: {\n", cfg)
+		type e struct{ n, fp string }
+		var es []e
+		for _, fn := range m.Funcs {
+			if fn.Parent() != nil {
+				continue
+			}
+			es = append(es, e{m.FuncName(fn), m.Fingerprint2(fn)})
+		}
+		sort.Slice(es, func(i, j int) bool { return es[i].n < es[j].n })
+		for _, x := range es {
+			fmt.Printf("\t\t%q: %q,\n", x.n, x.fp)
+		}
+		fmt.Println("\t},")
+	}
+	fmt.Println("}")
 }
